@@ -514,6 +514,7 @@ def scratch_discipline(body, field):
     written_over = []   # access paths of the message slice X in zip(X.iter(), self.S.iter_mut()) loops with `*s = ..`
     problems = []
     order = []
+    pos = {id(x): i for i, x in enumerate(walk(body.value))}     # program (pre-)order of the nodes
     for n in walk(body.value):
         if n.get("k") == "for":
             comps = iter_components(n["iter"])
@@ -529,13 +530,33 @@ def scratch_discipline(body, field):
                 fl = Flow(None, "", {})
                 if fl.assigns_element_unconditionally(n, mine[0][0]) and others:
                     written_over.append(others[0])
-                    order.append(("w", others[0], n.get("sp")))
+                    order.append(("w", others[0], n.get("sp"), pos[id(n)]))
                 else:
                     problems.append("iter_mut loop over %s does not assign every element" % field)
             else:
-                order.append(("r", others[0] if others else None, n.get("sp")))
+                order.append(("r", others[0] if others else None, n.get("sp"), pos[id(n)]))
+    # the same discipline for zipped iterator chains consumed by an adaptor pipeline (X.iter().zip(self.S.iter()).filter_map(..).product())
+    in_for = set()
+    for n in walk(body.value):
+        if n.get("k") == "for":
+            in_for.update(id(x) for x in walk(n["iter"]))
+    inner_zip = set()
+    for n in walk(body.value):
+        if n.get("k") == "mcall" and n["m"] == "zip" and id(n) not in in_for and id(n) not in inner_zip:
+            inner_zip.update(id(x) for x in walk(n) if x is not n)
+            if not any(x.get("k") == "field" and x["f"] == field for x in walk(n)):
+                continue
+            comps = iter_components(n)
+            if comps is None:
+                problems.append("%s is zipped with a partial iterator (skip / take / filter before the zip) at %s" % (field, n.get("sp")))
+                continue
+            mine = [c for c in comps if c[1] in ("iter", "iter_mut") and strip_field(c[0]["recv"]) is not None and strip_field(c[0]["recv"])["f"] == field]
+            others = [access_path(c[0]["recv"]) for c in comps if c not in mine and c[1] in ("iter", "iter_mut")]
+            if mine and mine[0][1] == "iter":
+                order.append(("r", others[0] if others else None, n.get("sp"), pos[id(n)]))
+    order.sort(key=lambda o: o[3])
     seen_w = []
-    for kind, x, sp in order:
+    for kind, x, sp, _ in order:
         if kind == "w":
             seen_w.append(x)
         elif x not in seen_w:
